@@ -39,6 +39,7 @@ EXPLANATION += (" R-C18-4 also treats rounding of a load- or cycle-typed value t
 EXPLANATION += (' R-C18-8: every stats.linregress call of the analysis modules is preceded by a test of the spread of its regressor (np.ptp, unique / nunique, max together with min) in the same function or in every entry point that reaches it: exact Basquin data have zero spread after the pearl-chain shift and a regression over coinciding abscissae is 0/0.')
 EXPLANATION += (' R-C18-9: no function of the analysis modules writes a private attribute of an object other than self (zones and transition are derived by each fatigue data object from its own rows); zero instances expected, built-in example.')
 EXPLANATION += (' R-C18-11 (shared state-family rules, sa/statefam.py): no constructor of the Woehler analysis classes keeps a property of the fatigue data (fractures, infinite_zone, ...) that is computed from the finite/infinite transition, which methods of FatigueData change after construction; the zones are read when the likelihood is evaluated.')
+EXPLANATION += (" R-C18-1 also requires the data paired with the order-statistic ladder to be sorted without removing ties (np.sort / sort_values, not np.unique / drop_duplicates / set).")
 ASSUMPTIONS = [
     "scipy.stats.linregress and sums are invariant under a common permutation of their paired arguments",
     "pandas groupby sorts group keys by default; np.unique and the 1-D set operations return sorted arrays",
@@ -553,7 +554,20 @@ def _r1(ctx):
         if "LADDER" in ks:
             ladders += 1
             other = [x for x in ks if x != "LADDER"]
+            dedup = None
             if other == ["SORTED"]:
+                argtexts = {norm_text(a) for a in call.args} | {norm_text(k.value) for k in call.keywords}
+                for st_ in walk_function(fi.node):
+                    if isinstance(st_, ast.Assign) and any(norm_text(t) in argtexts for t in st_.targets):
+                        for c_ in ast.walk(st_.value):
+                            if isinstance(c_, ast.Call) and ((call_name(c_) or "") in ("np.unique", "np.union1d", "np.intersect1d", "set", "frozenset", "pd.unique") or
+                                                             (isinstance(c_.func, ast.Attribute) and c_.func.attr in ("unique", "drop_duplicates"))):
+                                dedup = c_
+            if other == ["SORTED"] and dedup is not None:
+                ctx.violated(fi, s, "the data paired with the order-statistic probabilities are sorted by %s, which also REMOVES tied values: "
+                             "n fractures need n ranks - specimens whose (shifted) cycle numbers coincide are dropped, data lying "
+                             "exactly on a Basquin line can collapse to one point" % norm_text(dedup)[:60], text="ladder over de-duplicated data")
+            elif other == ["SORTED"]:
                 ctx.holds(fi, s, "order-statistic ladder is paired with sorted data in %s" % norm_text(call)[:70])
             else:
                 ctx.violated(fi, s, "order-statistic probabilities are paired with %s data in %s: the i-th probability belongs "
